@@ -891,7 +891,11 @@ func c31GenRec(r *vRand, flagPct int, idx int) c31Rec {
 			case 2:
 				ins(c31Hdr{K: "LFS_BLOB", V: []byte("zz")})
 			default:
-				ins(c31Hdr{K: "LFS_BLOB", V: r.Bytes(r.Range(1, 5))})
+				v := make([]byte, r.Range(1, 5))
+				for j := range v {
+					v[j] = byte(r.Range(0x21, 0x7e))
+				}
+				ins(c31Hdr{K: "LFS_BLOB", V: v})
 			}
 		}
 	}
